@@ -204,6 +204,23 @@ func (x *xl) simple(s ast.Stmt) ([]string, error) {
 		return lines, nil
 	case *ast.ExprStmt:
 		if c, ok := y.X.(*ast.CallExpr); ok {
+			if id, ok := c.Fun.(*ast.Ident); ok && len(c.Args) == 2 {
+				// copy(dst, src) on a local slice variable: dst := Go.copyL dst src (the count is dropped)
+				if b, ok := x.p.info.Uses[id].(*types.Builtin); ok && b.Name() == "copy" {
+					if _, ok := x.typeOf(c.Args[1]).Underlying().(*types.Slice); !ok {
+						return nil, x.errf(s, "copy from a string")
+					}
+					n, _, err := x.lhsName(c.Args[0])
+					if err != nil {
+						return nil, err
+					}
+					bs, v, err := x.expr(c.Args[1])
+					if err != nil {
+						return nil, err
+					}
+					return append(bs, fmt.Sprintf("let %s := (Go.copyL %s %s)", n, n, v)), nil
+				}
+			}
 			if sel, ok := c.Fun.(*ast.SelectorExpr); ok {
 				if id, ok := sel.X.(*ast.Ident); ok && isBuilder(x.typeOf(sel.X)) {
 					n, _, err := x.lhsName(id)
@@ -501,6 +518,11 @@ func (x *xl) loopVars(nodes []ast.Node, before token.Pos, extraOutside map[types
 				if c, ok := y.X.(*ast.CallExpr); ok {
 					if sel, ok := c.Fun.(*ast.SelectorExpr); ok && isBuilder(x.typeOf(sel.X)) {
 						mark(sel.X)
+					}
+					if id, ok := c.Fun.(*ast.Ident); ok && len(c.Args) == 2 {
+						if b, ok := info.Uses[id].(*types.Builtin); ok && b.Name() == "copy" {
+							mark(c.Args[0])
+						}
 					}
 				}
 			case *ast.Ident:
